@@ -137,7 +137,11 @@ impl<'a, N: Normalizer> XmlSerializer<'a, N> {
                         text: "".to_string(),
                     });
                 }
-                let namespace = self.xot.namespace_str(*namespace_id);
+                // a namespace declaration is written as an attribute
+                let namespace = serialize_attribute(
+                    self.xot.namespace_str(*namespace_id).into(),
+                    &self.normalizer,
+                );
                 if *prefix_id == self.xot.empty_prefix_id {
                     OutputToken {
                         space: true,
